@@ -75,19 +75,23 @@ Proof. unfold Z.ltb, N.ltb. now rewrite N2Z.inj_compare. Qed.
 Lemma eqb_of_N a b : (Z.of_N a =? Z.of_N b)%Z = (a =? b).
 Proof. destruct (Z.eqb_spec (Z.of_N a) (Z.of_N b)), (N.eqb_spec a b); try reflexivity; lia. Qed.
 
-(* the receiver fields the option walk writes, against the model's accumulator *)
+(* the receiver fields the option walk writes, against the model's accumulator, and the fields it
+   must leave alone (written by parseWireOPT before the walk) *)
 Definition opt_rel (r : T_Request) (a : optfacts) : Prop :=
   T_Request_cookieOff r = Z.of_N (o_cookie_off a) /\ T_Request_cookieLen r = Z.of_N (o_cookie_len a) /\
   T_Request_hasNSID r = o_nsid a /\ T_Request_hasECS r = o_ecs a /\ T_Request_hasKeepalive r = o_ka a.
+Definition opt_frame (raw : list N) (hasopt : bool) (us : N) (dob : bool) (ver : N) (r : T_Request) : Prop :=
+  T_Request_raw r = raw /\ T_Request_hasOPT r = hasopt /\ T_Request_udpSize r = us /\
+  T_Request_do r = dob /\ T_Request_version r = ver.
 
 (* loop 1 of Request.parseWireOPT followed by its [return off == end], against Model.pw_opts *)
-Definition walk_rel (raw : list N) (endo : N)
-    (res : go_ctl bool * (T_Request * Z * list N * Z)) (m : Model.res optfacts) : Prop :=
+Definition walk_rel (raw : list N) (endo : N) (P : T_Request -> optfacts -> Prop)
+    (res : go_ctl (bool * T_Request) * (T_Request * Z * list N * N * N * N * N * Z * Z)) (m : Model.res optfacts) : Prop :=
   match m with
   | NoFuel => fst res = GoOof
-  | Decline => fst res = GoRet false \/
-               exists r' o', res = (GoNext, (r', Z.of_N o', raw, Z.of_N endo)) /\ o' <> endo
-  | Ok a' => exists r', res = (GoNext, (r', Z.of_N endo, raw, Z.of_N endo)) /\ opt_rel r' a'
+  | Decline => (exists r', fst res = GoRet (false, r')) \/
+               exists r' o' us er ver fl rdl, res = (GoNext, (r', Z.of_N o', raw, us, er, ver, fl, rdl, Z.of_N endo)) /\ o' <> endo
+  | Ok a' => exists r' us er ver fl rdl, res = (GoNext, (r', Z.of_N endo, raw, us, er, ver, fl, rdl, Z.of_N endo)) /\ P r' a'
   end.
 
 Ltac norm :=
@@ -95,50 +99,95 @@ Ltac norm :=
   change 8%Z with (Z.of_N 8); change 40%Z with (Z.of_N 40); change 0%Z with (Z.of_N 0);
   rewrite <- ?N2Z.inj_add, ?ltb_of_N, ?eqb_of_N.
 
-Lemma gen_pw_opts_loop : forall f k raw r off endo a, opt_rel r a ->
-  walk_rel raw endo (go_Request_parseWireOPT_loop1 f k r (Z.of_N off) raw (Z.of_N endo)) (pw_opts k raw off endo a).
+Ltac keep_inv := split; [repeat split; cbn; first [assumption | reflexivity] | repeat split; cbn; first [assumption | reflexivity]].
+
+Lemma gen_pw_opts_loop : forall f k raw hasopt usz dob verz r off endo a us er ver fl rdl,
+  opt_rel r a -> opt_frame raw hasopt usz dob verz r ->
+  walk_rel raw endo (fun r' a' => opt_rel r' a' /\ opt_frame raw hasopt usz dob verz r')
+    (go_Request_parseWireOPT_loop1 f k r (Z.of_N off) raw us er ver fl rdl (Z.of_N endo)) (pw_opts k raw off endo a).
 Proof.
-  intros f k. induction k as [|k IH]; intros raw r off endo a R; [reflexivity|].
+  intros f k. induction k as [|k IH]; intros raw hasopt usz dob verz r off endo a us er ver fl rdl R F; [reflexivity|].
   cbn [go_Request_parseWireOPT_loop1 pw_opts].
   unfold opt_option_hdr_len, EDNS0COOKIE, EDNS0NSID, EDNS0SUBNET, EDNS0PADDING, EDNS0TCPKEEPALIVE,
     po_cookie_min, po_cookie_max, po_ecs_min, po_v4_mask_max, po_v4_scope_max, po_v6_mask_max, po_v6_scope_max,
     po_ka_len_a, po_ka_len_b.
-  destruct R as (R1 & R2 & R3 & R4 & R5).
+  destruct R as (R1 & R2 & R3 & R4 & R5). destruct F as (F1 & F2 & F3 & F4 & F5).
   norm.
   destruct (N.ltb_spec off endo) as [H|H]; destruct (N.leb_spec endo off) as [H'|H']; try lia.
   2:{ destruct (N.eqb_spec off endo) as [->|E]; cbn.
-      - exists r. split; [reflexivity|]. repeat split; assumption.
-      - right. exists r, off. split; [reflexivity|assumption]. }
-  destruct (endo <? off + 4) eqn:T1; [left; reflexivity|].
+      - exists r, us, er, ver, fl, rdl. split; [reflexivity|]. repeat split; assumption.
+      - right. exists r, off, us, er, ver, fl, rdl. split; [reflexivity|assumption]. }
+  destruct (endo <? off + 4) eqn:T1; [left; eexists; reflexivity|].
   cbv zeta. norm.
   rewrite !be16_slice' by lia.
   set (code := be16 raw off). set (optlen := be16 raw (off + 2)).
   norm.
-  destruct (endo <? off + 4 + optlen) eqn:T2; [left; reflexivity|].
+  destruct (endo <? off + 4 + optlen) eqn:T2; [left; eexists; reflexivity|].
   destruct (code =? 10) eqn:C10.
   { rewrite R2. norm.
-    destruct ((optlen <? 8) || (40 <? optlen) || negb (o_cookie_len a =? 0)) eqn:T3; [left; reflexivity|].
-    apply IH. repeat split; cbn; try assumption; reflexivity. }
+    destruct ((optlen <? 8) || (40 <? optlen) || negb (o_cookie_len a =? 0)) eqn:T3; [left; eexists; reflexivity|].
+    apply IH; repeat split; cbn; first [assumption | reflexivity]. }
   destruct (code =? 3) eqn:C3.
-  { apply IH. repeat split; cbn; try assumption; reflexivity. }
+  { apply IH; repeat split; cbn; first [assumption | reflexivity]. }
   destruct (code =? 8) eqn:C8.
-  { destruct (optlen <? 4) eqn:T4; [left; reflexivity|].
+  { destruct (optlen <? 4) eqn:T4; [left; eexists; reflexivity|].
     rewrite ?be16_slice' by lia. rewrite ?go_idx_byte_at.
     set (family := be16 raw (off + 4)). set (netmask := byte_at raw (off + 4 + 2)). set (scope := byte_at raw (off + 4 + 3)).
     destruct (family =? 0) eqn:F0.
-    { destruct (netmask =? 0) eqn:N0; cbn [negb]; [|left; reflexivity].
-      apply IH. repeat split; cbn; try assumption; reflexivity. }
-    destruct (family =? 1) eqn:F1.
-    { destruct ((32 <? netmask) || (32 <? scope)) eqn:B; cbn [negb]; [left; reflexivity|].
-      apply IH. repeat split; cbn; try assumption; reflexivity. }
-    destruct (family =? 2) eqn:F2.
-    { destruct ((128 <? netmask) || (128 <? scope)) eqn:B; cbn [negb]; [left; reflexivity|].
-      apply IH. repeat split; cbn; try assumption; reflexivity. }
-    left; reflexivity. }
+    { destruct (netmask =? 0) eqn:N0; cbn [negb]; [|left; eexists; reflexivity].
+      apply IH; repeat split; cbn; first [assumption | reflexivity]. }
+    destruct (family =? 1) eqn:Fa1.
+    { destruct ((32 <? netmask) || (32 <? scope)) eqn:B; cbn [negb]; [left; eexists; reflexivity|].
+      apply IH; repeat split; cbn; first [assumption | reflexivity]. }
+    destruct (family =? 2) eqn:Fa2.
+    { destruct ((128 <? netmask) || (128 <? scope)) eqn:B; cbn [negb]; [left; eexists; reflexivity|].
+      apply IH; repeat split; cbn; first [assumption | reflexivity]. }
+    left; eexists; reflexivity. }
   destruct (code =? 12) eqn:C12.
-  { apply IH. repeat split; assumption. }
+  { apply IH; repeat split; assumption. }
   destruct (code =? 11) eqn:C11.
-  { destruct (negb (optlen =? 0) && negb (optlen =? 2)) eqn:K; [left; reflexivity|].
-    apply IH. repeat split; cbn; try assumption; reflexivity. }
-  left; reflexivity.
+  { destruct (negb (optlen =? 0) && negb (optlen =? 2)) eqn:K; [left; eexists; reflexivity|].
+    apply IH; repeat split; cbn; first [assumption | reflexivity]. }
+  left; eexists; reflexivity.
+Qed.
+
+(* ---- Request.parseWireOPT as a WHOLE (receiver-mutating method, final receiver as last result) against
+   Model.pw_opt: same verdict, and on acceptance the receiver carries exactly the model's OPT facts ---- *)
+Ltac norm11 :=
+  change 11%Z with (Z.of_N 11); change 1%Z with (Z.of_N 1); change 3%Z with (Z.of_N 3);
+  change 5%Z with (Z.of_N 5); change 6%Z with (Z.of_N 6); change 7%Z with (Z.of_N 7);
+  change 9%Z with (Z.of_N 9); rewrite <- ?N2Z.inj_add.
+
+Lemma gen_parse_wire_opt : forall raw r off,
+  T_Request_raw r = raw -> opt_rel r optfacts0 ->
+  match pw_opt raw off with
+  | Ok p => exists r', go_Request_parseWireOPT (opts_fuel raw) r (Z.of_N off) = Some (true, r') /\
+                       opt_rel r' (p_opts p) /\ opt_frame raw true (p_udpsize p) (p_do p) (p_version p) r'
+  | Decline => exists r', go_Request_parseWireOPT (opts_fuel raw) r (Z.of_N off) = Some (false, r')
+  | NoFuel => go_Request_parseWireOPT (opts_fuel raw) r (Z.of_N off) = None
+  end.
+Proof.
+  intros raw r off Hraw R. unfold pw_opt, go_Request_parseWireOPT. rewrite Hraw. cbv zeta.
+  unfold po_fixed, dns_TypeOPT, po_do_mask.
+  norm11. rewrite go_len_blen, ltb_of_N, !go_idx_byte_at. rewrite !be16_slice' by lia.
+  destruct ((blen raw <? off + 11) || negb (byte_at raw off =? 0)) eqn:G1; [eexists; reflexivity|].
+  destruct (negb (be16 raw (off + 1) =? 41)) eqn:G2; [eexists; reflexivity|].
+  rewrite <- ?N2Z.inj_add, eqb_of_N.
+  destruct (negb (off + 11 + be16 raw (off + 9) =? blen raw)) eqn:G3; [eexists; reflexivity|].
+  destruct (negb (byte_at raw (off + 5) =? 0)) eqn:G4; [eexists; reflexivity|].
+  match goal with |- context [go_Request_parseWireOPT_loop1 ?f ?k ?r0 _ _ ?a1 ?a2 ?a3 ?a4 ?a5 _] =>
+    pose proof (gen_pw_opts_loop f k raw true (be16 raw (off + 3))
+                  (negb (N.land (be16 raw (off + 7)) 32768 =? 0)) (byte_at raw (off + 6))
+                  r0 (off + 11) (off + 11 + be16 raw (off + 9)) optfacts0 a1 a2 a3 a4 a5) as W
+  end.
+  assert (W' := W ltac:(destruct R as (R1 & R2 & R3 & R4 & R5); repeat split; cbn; assumption)
+                  ltac:(repeat split; cbn; first [assumption | reflexivity])).
+  clear W. unfold walk_rel in W'.
+  destruct (pw_opts (opts_fuel raw) raw (off + 11) (off + 11 + be16 raw (off + 9)) optfacts0) as [a'| |].
+  - destruct W' as (r' & us & er & ver & fl & rdl & E & Rr & Fr). rewrite E.
+    exists r'. rewrite Z.eqb_refl. split; [reflexivity|]. cbn [p_opts p_udpsize p_do p_version]. split; assumption.
+  - destruct W' as [(r' & E)|(r' & o' & us & er & ver & fl & rdl & E & NE)].
+    + destruct (go_Request_parseWireOPT_loop1 _ _ _ _ _ _ _ _ _ _ _) as [c st]. cbn in E. subst c. eexists; reflexivity.
+    + rewrite E. exists r'. rewrite eqb_of_N. destruct (N.eqb_spec o' (off + 11 + be16 raw (off + 9))); [contradiction|reflexivity].
+  - destruct (go_Request_parseWireOPT_loop1 _ _ _ _ _ _ _ _ _ _ _) as [c st]. cbn in W'. subst c. reflexivity.
 Qed.
